@@ -37,7 +37,7 @@ type c08Entry struct {
 	Prob     int // 0 absent, 1: 0, 2: 0.25, 3: 1
 }
 
-var c08Probs = []float64{-1, 0, 0.25, 1}
+var c08Probs = []float64{-1, 0, 0.25, 1, 1e-12, 1 - 1e-12}
 var c08Draws = []float64{0, 0.25 - 1.0/(1<<54), 0.25, 1 - 1.0/(1<<53)}
 
 func c08BiasJSON(e c08Entry) M {
@@ -281,6 +281,9 @@ func c08Run(s *Shard) {
 		for p := 0; p < 4; p++ {
 			menu = append(menu, c08Entry{k, false, p})
 		}
+		if k == 0 {
+			menu = append(menu, c08Entry{k, false, 4}, c08Entry{k, false, 5}) // probabilities extremely close to 0 and to 1
+		}
 		menu = append(menu, c08Entry{k, true, k + 1}) // a disabled entry's probability is irrelevant: one variant each
 	}
 	menu = append(menu, c08Entry{3, true, 0}, c08Entry{3, true, 2})
@@ -348,6 +351,14 @@ func c08Run(s *Shard) {
 			f0, ok0 := seen[key{pos, 1}]
 			f25, ok25 := seen[key{pos, 2}]
 			f1, ok1 := seen[key{pos, 3}]
+			if ft, okt := seen[key{pos, 4}]; okt && ok0 && ok25 && ((f0 && !ft) || (ft && !f25)) {
+				c := &Case{Prop: "C08", Kind: "list", Params: M{"list": witness[key{pos, 4}], "draws": draws}}
+				s.Report([]Violation{viol(c, "C08/monotone", "position %d: fires at p=0:%v p=1e-12:%v p=0.25:%v under draws %v", pos, f0, ft, f25, draws)})
+			}
+			if fh, okh := seen[key{pos, 5}]; okh && ok1 && ok25 && ((f25 && !fh) || (fh && !f1)) {
+				c := &Case{Prop: "C08", Kind: "list", Params: M{"list": witness[key{pos, 5}], "draws": draws}}
+				s.Report([]Violation{viol(c, "C08/monotone", "position %d: fires at p=0.25:%v p=1-1e-12:%v p=1:%v under draws %v", pos, f25, fh, f1, draws)})
+			}
 			if ok0 && ok25 && ok1 && ((f0 && !f25) || (f25 && !f1)) {
 				c := &Case{Prop: "C08", Kind: "list", Params: M{"list": witness[key{pos, 2}], "draws": draws}}
 				s.Report([]Violation{viol(c, "C08/monotone", "position %d: fires at p=0:%v p=0.25:%v p=1:%v under draws %v", pos, f0, f25, f1, draws)})
